@@ -267,3 +267,11 @@ Definition maccepts (c : c08_mtrace_case) : bool :=
                && push_ok ms pu
   | None => false
   end.
+
+(* a keep-alive ping seen on the wire after the first n labels: its id is an allocation from the same generator, so it must
+   be as fresh as a registration's — non-zero and held by no outstanding call on any adapter *)
+Definition mping_ok (n : nat) (ls : list (nat * label)) (pg : nat * Z) : bool :=
+  match mrun (repeat init n) (firstn (fst pg) ls) with
+  | Some ms => mgoodb ms (O, LRegister (snd pg) true)
+  | None => false
+  end.
